@@ -251,7 +251,7 @@ def families(tier, seed):
               "maps-back-to-centre", "fields-inherited")
     fams = [Family("cyclic-orbit", sp, ex, expect=expect, describe=describe_with(lists, offs))]
     from ..motlgen import with_row_index_kinds
-    fams.append(with_row_index_kinds(fams[0], select=lambda c: c[3] == "int", expect=("count", "orientation", "position", "fields-inherited")))
+    fams.append(with_row_index_kinds(fams[0], select=lambda c: c[3] == "int", kinds=("gapped", "reversed", "repeated"), expect=("count", "orientation", "position", "fields-inherited")))
     if tier == "thorough":
         big = big_lists(seed)
         boffs = offs[:2]
